@@ -26,11 +26,19 @@ pub struct Cfg {
     /// is loaded first; no traffic in between, so the decisions must be those of a single load
     #[serde(default)]
     pub retuned: u8,
+    /// a fixed history instead of the explored alphabet: the rule gets params_max_capacity = C, C
+    /// distinct values ask for one token each at the same instant (q = 1, b = 0: every bucket is
+    /// then empty), and the first value asks again: it must be rejected, because the number of
+    /// distinct values is within the rule's capacity and no bucket may have been dropped
+    #[serde(default)]
+    pub script_capacity: Option<usize>,
 }
 
 #[derive(Clone, Debug)]
 pub enum Op {
     Arrive { value: &'static str, batch: u32, gap: u64 },
+    /// scripted history: the n-th distinct value, one token, no time passing
+    ArriveN(usize),
 }
 
 const RES: &str = "c06-res";
@@ -83,6 +91,7 @@ pub struct C06 {
     hist: Vec<(u64, String, u32, bool)>,
     keep: Vec<EntryStrongPtr>,
     refills: u64,
+    step_no: usize,
 }
 
 fn other(v: &str) -> &'static str {
@@ -137,6 +146,7 @@ fn rule_of(cfg: &Cfg, q: u64, overrides: &[(String, u64)]) -> Arc<hotspot::Rule>
         burst_count: cfg.b,
         duration_in_sec: cfg.d,
         specific_items: overrides.iter().cloned().collect(),
+        params_max_capacity: cfg.script_capacity.unwrap_or(0),
         ..Default::default()
     })
 }
@@ -147,7 +157,7 @@ impl C06 {
         let mut gaps = vec![0, 1, d / 2, d - 1, d, d + 1, 2 * d + 1, 5 * d];
         gaps.sort();
         gaps.dedup();
-        C06 { cfg: cfg.clone(), gaps, buckets: BTreeMap::new(), hist: vec![], keep: vec![], refills: 0 }
+        C06 { cfg: cfg.clone(), gaps, buckets: BTreeMap::new(), hist: vec![], keep: vec![], refills: 0, step_no: 0 }
     }
     fn q_of(&self, v: &str) -> u64 {
         self.cfg.overrides.iter().find(|(k, _)| k == v).map(|(_, q)| *q).unwrap_or(self.cfg.q)
@@ -185,8 +195,18 @@ impl Subject for C06 {
         self.buckets.clear();
         self.hist.clear();
         self.refills = 0;
+        self.step_no = 0;
     }
     fn enabled(&self) -> Vec<Op> {
+        if let Some(c) = self.cfg.script_capacity {
+            return if self.step_no < c {
+                vec![Op::ArriveN(self.step_no)]
+            } else if self.step_no == c {
+                vec![Op::ArriveN(0)]
+            } else {
+                vec![]
+            };
+        }
         let max = self.cfg.q + self.cfg.b;
         let mut v = vec![];
         for g in &self.gaps {
@@ -203,7 +223,16 @@ impl Subject for C06 {
         v
     }
     fn step(&mut self, op: &Op) -> Result<(), String> {
-        let Op::Arrive { value, batch, gap } = op;
+        self.step_no += 1;
+        let owned;
+        let (value, batch, gap): (&str, &u32, &u64) = match op {
+            Op::Arrive { value, batch, gap } => (*value, batch, gap),
+            Op::ArriveN(n) => {
+                owned = format!("v{}", n);
+                (owned.as_str(), &1, &0)
+            }
+        };
+        let value = &value;
         advance_ms(*gap);
         let t = now_ms();
         let q = self.q_of(value);
@@ -270,6 +299,9 @@ impl Subject for C06 {
                 }
             }
         }
+        if self.cfg.script_capacity.is_some() {
+            return Ok(());
+        }
         // (3)+(4) no cross-talk, overrides replace q for that value only: the decisions for value v
         // equal those of the history projected on v under a rule without overrides and q := q_v,
         // asked through Controller::perform_checking
@@ -317,7 +349,7 @@ pub fn configs(thorough: bool) -> Vec<Cfg> {
                         if !thorough && k % 5 != 0 {
                             continue;
                         }
-                        let base = Cfg { q, b, d, overrides: overrides.clone(), keyed, phase: [0, 1, 499, 999][(k % 4) as usize], companion: false, retuned: 0 };
+                        let base = Cfg { q, b, d, overrides: overrides.clone(), keyed, phase: [0, 1, 499, 999][(k % 4) as usize], companion: false, retuned: 0, script_capacity: None };
                         v.push(base.clone());
                         // variants: a companion rule sharing the value strings, and two-step loads
                         let variant = if thorough { Some(k % 4) } else { Some((k / 5) % 4) };
@@ -333,6 +365,15 @@ pub fn configs(thorough: bool) -> Vec<Cfg> {
             }
         }
     }
+    // scripted capacity histories: small, just above the default ceiling of 20 000, and larger
+    for c in [3usize, 50, 20_001, 25_000] {
+        for keyed in [false, true] {
+            if keyed && c > 50 {
+                continue;
+            }
+            v.push(Cfg { q: 1, b: 0, d: 3, overrides: vec![], keyed, phase: 0, companion: false, retuned: 0, script_capacity: Some(c) });
+        }
+    }
     v
 }
 
@@ -341,6 +382,9 @@ pub fn run(o: &Opts, stats: &mut Stats) -> Option<usize> {
     let thorough = o.thorough;
     run_configs(o, stats, &cfgs, |c, _| C06::new(c), &move |c: &Cfg| {
         let variant = c.companion || c.retuned != 0;
+        if let Some(cap) = c.script_capacity {
+            return vec![Pass { depth: cap + 2, max_dev: 0 }];
+        }
         if thorough {
             vec![Pass { depth: if variant { 6 } else { 7 }, max_dev: 3 }]
         } else {
